@@ -26,4 +26,18 @@ PROPS = {
     ),
 }
 
+PROPS["C16"] = dict(
+    lean_modules=["QuaiVerif.Props.C16"],
+    areas=[dict(name="addr", n_quick=400, n_thorough=6000, seeds_thorough=3, n_search=2000)],
+    rule="a case is one node location plus 10-40 operations over byte strings of length 0-40 biased to the location prefix byte, the 127/128 ledger "
+         "boundary and all-zero addresses: every constructor/decoder (bytes, bytes20, hex, proto, scan, pubkey, CREATE, CREATE2, RLP, JSON, text), scope "
+         "predicates, StateDB account creation with adversarial addresses, GrindContract; non-trivial = yields both kinds or reaches state/grind",
+    level_text="Partition of addresses by zone/ledger, agreement of all location-taking constructors on 20-byte inputs, the account-state scope invariant "
+               "for every sequence of creations, the UTXO address guard and Create/Grind soundness are Lean theorems over the address model; the model's "
+               "executable definitions are compared with the real common/crypto/state/vm functions on generated inputs (every answer).",
+    level_note="Trusted: Lean kernel; harness generators. keccak is opaque (hash images are handed to the model). The CREATE path inside EVM.create and "
+               "UTXO-creating branches of block processing are tied through C01/C05 areas, not here. Known finding: location-free decoders classify with Location{0,0}.",
+    assumptions=["locations have at most 2 components with region, zone < 16", "keccak256 treated as an opaque function"],
+)
+
 NOT_APPLICABLE = {}
